@@ -1015,6 +1015,10 @@ class Inliner:
                 # `x = helper(x)` where the helper works on its parameter and returns it: the
                 # body works on x itself
                 rename[p_] = target.id
+            elif p_ in assigned and isinstance(expr, ast.Name) and self._dead_after(caller, stmt, expr.id):
+                # the helper rebinds its parameter and the caller never looks at the argument
+                # variable again: the body can work on that variable
+                rename[p_] = expr.id
             else:
                 rename[p_] = prefix + p_
                 binds.append(ast.copy_location(ast.Assign(targets=[ast.Name(id=prefix + p_, ctx=ast.Store())], value=copy.deepcopy(expr), lineno=stmt.lineno), stmt))
@@ -1626,6 +1630,10 @@ class Inliner:
                     ast.fix_missing_locations(st)
                     return pre + [st]
             return None
+        if isinstance(st, (ast.With, ast.AsyncWith)) and len(st.items) == 1 and isinstance(st.items[0].context_expr, ast.Call):
+            rep_cm = self._inline_contextmanager(f, st)
+            if rep_cm is not None:
+                return rep_cm
         if isinstance(st, (ast.With, ast.AsyncWith)) and st.items and isinstance(st.items[0].context_expr, ast.Call):
             # `with helper(...) as x:` - the context expression is evaluated first, so the
             # helper's body can run in front of the statement
@@ -1704,6 +1712,116 @@ class Inliner:
         except NotInlinable as e:
             self.log.append(f"not inlined {g.qualname} in {f.qualname}: {e}")
             return None
+
+    def _inline_contextmanager(self, f: FuncInfo, st):
+        """`with _helper(args) [as x]: BODY` where _helper is a private generator-based context
+        manager (`@contextmanager` for `with`, `@asynccontextmanager` for `async with`) with
+        exactly one `yield`, not inside a loop: the helper's body with BODY in place of the
+        yield.  An exception raised in BODY is thrown into the generator at the yield, i.e. it
+        meets exactly the handlers / finally blocks that enclose the yield."""
+        inner = st.items[0].context_expr
+        c = self.a.callee(f, inner)
+        if c.kind != "func" or c.func is f:
+            return None
+        g = c.func
+        want = "asynccontextmanager" if isinstance(st, ast.AsyncWith) else "contextmanager"
+        if g.decorators != [want] or g.parent is not None or g.is_lambda or g.nested:
+            return None
+        if not g.name.startswith("_"):
+            return None  # named context managers of the package (coalesce_exceptions) are anchors
+        if isinstance(inner.func, ast.Attribute) and not _simple(inner.func.value):
+            return None
+        a = g.node.args
+        if a.vararg or a.kwarg or a.posonlyargs:
+            return None
+        yields = [n for n in walk_own(g.node) if isinstance(n, (ast.Yield, ast.YieldFrom))]
+        if len(yields) != 1 or isinstance(yields[0], ast.YieldFrom):
+            return None
+        ystmts = [n for n in walk_own(g.node) if isinstance(n, ast.Expr) and n.value is yields[0]]
+        if len(ystmts) != 1:
+            return None
+        if any(isinstance(n, (ast.For, ast.AsyncFor, ast.While)) and any(x is ystmts[0] for x in ast.walk(n)) for n in walk_own(g.node)):
+            return None
+        if any(isinstance(n, (ast.Return, ast.Global, ast.Nonlocal)) for n in walk_own(g.node)):
+            return None
+        if any(isinstance(n, ast.Call) and ((isinstance(n.func, ast.Name) and n.func.id == g.name) or (isinstance(n.func, ast.Attribute) and n.func.attr == g.name)) for n in walk_own(g.node)):
+            return None
+        # BODY must not leave through break / continue of an enclosing loop (it would now sit
+        # inside the helper's try blocks - fine - but keep to the plain case) nor bind the
+        # helper's names
+        try:
+            pre = self._expand(f, st, inner, g.is_async, g, "expr", None)
+        except NotInlinable as e:
+            self.log.append(f"not inlined context manager {g.qualname} in {f.qualname}: {e}")
+            return None
+        # find the (renamed) yield statement in the expansion and put BODY there
+        placed = False
+        for owner in [ast.Module(body=pre, type_ignores=[])] + [n for s_ in pre for n in ast.walk(s_)]:
+            for fld in ("body", "orelse", "finalbody"):
+                blk = getattr(owner, fld, None)
+                if not isinstance(blk, list):
+                    continue
+                for i, x in enumerate(blk):
+                    if isinstance(x, ast.Expr) and isinstance(x.value, ast.Yield):
+                        new = []
+                        if st.items[0].optional_vars is not None:
+                            val = x.value.value if x.value.value is not None else ast.Constant(value=None)
+                            new.append(ast.copy_location(ast.Assign(targets=[st.items[0].optional_vars], value=val, lineno=st.lineno), st))
+                        new.extend(st.body)
+                        blk[i : i + 1] = new
+                        placed = True
+                        if owner.__class__ is ast.Module:
+                            pre = owner.body
+                        break
+                if placed:
+                    break
+            if placed:
+                break
+        if not placed:
+            return None
+        for s_ in pre:
+            ast.fix_missing_locations(s_)
+        self.log.append(f"context manager {g.qualname} -> {f.qualname}:{st.lineno}")
+        return pre
+
+    @staticmethod
+    def _dead_after(caller: FuncInfo, stmt, name: str) -> bool:
+        """`name` (a local / parameter of caller) is not read after `stmt`: not later in the
+        function, not through a loop back edge, not by a closure."""
+        order: dict = {}
+
+        def number(n):
+            order[id(n)] = len(order)
+            for c in ast.iter_child_nodes(n):
+                number(c)
+
+        number(caller.node)
+        if id(stmt) not in order:
+            return False
+        # end of the statement = highest number inside it
+        end = max(order[id(x)] for x in ast.walk(stmt))
+        for n in ast.walk(caller.node):
+            if isinstance(n, (ast.For, ast.AsyncFor, ast.While)) and any(x is stmt for x in ast.walk(n)):
+                return False
+            if isinstance(n, (ast.FunctionDef, ast.AsyncFunctionDef, ast.Lambda)) and n is not caller.node and any(isinstance(x, ast.Name) and x.id == name for x in ast.walk(n)):
+                return False
+        inside = {id(x) for x in ast.walk(stmt)}
+        for n in ast.walk(caller.node):
+            if isinstance(n, ast.Name) and n.id == name and isinstance(n.ctx, ast.Load) and id(n) not in inside and order.get(id(n), -1) > end:
+                return False
+        return True
+
+    def _exported(self) -> set:
+        init_mod = self.p.modules.get("__init__")
+        return set(init_mod.imports) if init_mod is not None else set()
+
+    @staticmethod
+    def _as_plain(g: FuncInfo) -> FuncInfo:
+        """The generator function seen as a plain procedure (its yield is replaced afterwards)."""
+        import copy as _c
+
+        h = _c.copy(g)
+        return h
 
     def _hoist_argument(self, f: FuncInfo, st, call: ast.Call, cands):
         """`x = f(a, **helper(b))`: when everything the call evaluates before the helper call is
